@@ -285,7 +285,6 @@ func (env *SpecEnv) eval(e Expr) (sval, error) {
 		}
 		env.qdepth++
 		body, err := env.evalBool(x.Body)
-		env.qdepth--
 		if err == nil && x.Trig != nil {
 			env.inTrig = true
 			tv, terr := env.eval(x.Trig)
@@ -305,6 +304,7 @@ func (env *SpecEnv) eval(e Expr) (sval, error) {
 			}
 			env.inTrig = false
 		}
+		env.qdepth--
 		for _, qv := range x.Vars {
 			delete(env.vars, qv.Name)
 			if old, ok := saved[qv.Name]; ok {
@@ -835,6 +835,27 @@ func (env *SpecEnv) evalCall(x *ECall) (sval, error) {
 				return sval{}, fmt.Errorf("deref of non-pointer %s", v.typ)
 			}
 			return env.sv(f.load(env.state(), v.t, pt.Elem()), pt.Elem()), nil
+		case "isobj":
+			// isobj(p): p (of static type *T, T a named struct) addresses a whole, separately
+			// allocated T object (not a field or element of another object)
+			if len(x.Args) != 1 {
+				return sval{}, fmt.Errorf("isobj takes one argument")
+			}
+			v, err := env.eval(x.Args[0])
+			if err != nil {
+				return sval{}, err
+			}
+			var nt *types.Named
+			if v.typ != nil {
+				if pt, ok := v.typ.Underlying().(*types.Pointer); ok {
+					nt, _ = pt.Elem().(*types.Named)
+				}
+			}
+			if v.sort != "Ptr" || nt == nil {
+				return sval{}, fmt.Errorf("isobj needs a pointer to a named struct type")
+			}
+			// ... that exists in the state the expression is evaluated in
+			return sval{t: fmt.Sprintf("(and (not (= %s nil)) (= (ppath %s) here) (= (objtype (pobj %s)) %d) (< (pobj %s) %s))", v.t, v.t, v.t, f.eng.typeID(nt), v.t, env.state().alloc), sort: "Bool"}, nil
 		case "sliceobj":
 			// sliceobj(s): identity of the backing array of slice s (two slices with different
 			// sliceobj never share elements)
